@@ -303,3 +303,7 @@ Lemma connected_In m pr : connected m pr = true <-> In pr (all_wire_pins m).
 Proof.
   unfold connected, all_wire_pins. rewrite cable_pins_app, in_app_iff, orb_true_iff, !cables_have_In. tauto.
 Qed.
+
+(* an accepted document is a document of the tokenizer, and is segmented by the mode machine *)
+Lemma classify_ok d ss : classify d = Ok ss -> classify_from MTop d = Ok ss.
+Proof. unfold classify. destruct (tokenized d); [auto|discriminate]. Qed.
